@@ -40,3 +40,21 @@ package transaction
 //@   ensures {C15} only-new-records-are-created: old(transaction.Version) != 0 || old(transaction.Revision) != 0 ==> err != nil && inserts == old(inserts)
 //@   ensures {C15} created-record-is-versioned: err == nil ==> transaction.Revision == 1 && transaction.Version > 0 && inserts == old(inserts) + 1 && lastWriteKey == transaction.Key
 //@   ensures {C15} create-never-overwrites: condWrites == old(condWrites) && inserts <= old(inserts) + 1
+
+// ---- interface contract of the v3 transaction store as the v3 controller relies on it (assumed; its write
+// half is what the contracts above prove of the implementation) ----
+//@ ghost v3TxnStatusWrites int
+//@ ghost v3CfgStatusWrites int
+// how many configuration status writes had been issued when the last transaction status write was issued
+//@ ghost v3LastTxnWriteAtCfgWrites int
+//@ spec v3PhasesPresent(t *configapi.Transaction) bool = t.Status.Change.Commit != nil && t.Status.Change.Apply != nil && t.Status.Rollback.Commit != nil && t.Status.Rollback.Apply != nil && t.Status.Change.Commit != t.Status.Change.Apply && t.Status.Change.Commit != t.Status.Rollback.Commit && t.Status.Change.Commit != t.Status.Rollback.Apply && t.Status.Change.Apply != t.Status.Rollback.Commit && t.Status.Change.Apply != t.Status.Rollback.Apply && t.Status.Rollback.Commit != t.Status.Rollback.Apply
+//@ iface Store.Get(ctx, id) (t, err)
+//@   modifies nothing
+//@   ensures err != nil ==> t == nil
+//@   ensures err == nil ==> t != nil && fresh(t) && v3PhasesPresent(t) && fresh(t.Status.Change.Commit) && fresh(t.Status.Change.Apply) && fresh(t.Status.Rollback.Commit) && fresh(t.Status.Rollback.Apply)
+//@   ensures errWF(err)
+//@ iface Store.UpdateStatus(ctx, transaction) (err)
+//@   requires transaction != nil
+//@   modifies v3TxnStatusWrites, v3LastTxnWriteAtCfgWrites, transaction.ObjectMeta
+//@   ensures v3TxnStatusWrites == old(v3TxnStatusWrites) + 1 && v3LastTxnWriteAtCfgWrites == v3CfgStatusWrites
+//@   ensures errWF(err)
